@@ -309,6 +309,8 @@ func c17LLExec(in c17LLIn) (obs c17LLObs) {
 			} else if d < 0 && -d <= r.snap.Size {
 				r.T += -d
 				push = 'S'
+			} else if d < 0 && r.snap.Size-r.snap.Cur >= -d && len(r.snap.Waiters) == 0 {
+				r.T += -d // above size but fits right now (see the sem harness)
 			}
 			r.sync(push)
 		}
@@ -403,9 +405,146 @@ func c17LLGen(r *vfRand, adv bool) c17LLIn {
 	return in
 }
 
+
+// ---- storm (thorough): concurrent accepts and closes under an always-on counter ----
+
+type c17StormIn struct {
+	Caps     []int64 `json:"caps"`     // capacity of each phase (>= 1); changed only at quiescent points
+	Workers  int     `json:"workers"`  // goroutines closing accepted connections
+	PerPhase int     `json:"perPhase"` // connections offered per phase
+	Seed     int     `json:"seed"`
+}
+
+type c17StormObs struct {
+	Max       []int64 `json:"max"`       // per phase: maximum number of simultaneously open accepted connections
+	Accepted  int64   `json:"accepted"`
+	Closed    int64   `json:"closed"`
+	Panics    int64   `json:"panics"`
+	Dropped   int64   `json:"dropped"`
+	Desync    bool    `json:"desync"`
+	FinalUsed int64   `json:"finalUsed"` // permits still in use after everything was closed and the listener shut
+}
+
+func c17StormExec(in c17StormIn) (obs c17StormObs) {
+	obs.Max = []int64{}
+	if len(in.Caps) == 0 || in.Workers <= 0 {
+		return
+	}
+	inner := &c17Inner{ch: make(chan c17Item)}
+	ll := NewLimitListener(inner, uint32(in.Caps[0]))
+	snap := ll.sem.VfC17Snapshot()
+	T := snap.T()
+	var open, maxOpen, accepted, closedN, panics, dropped int64
+	work := make(chan net.Conn, in.PerPhase*len(in.Caps)+8)
+	var awg, wwg sync.WaitGroup
+	// the accept loop (one goroutine, as net/http.Server.Serve does)
+	awg.Add(1)
+	go func() {
+		defer awg.Done()
+		for {
+			c, err := ll.Accept()
+			if err != nil {
+				return
+			}
+			// the permit is held from before Accept returned until Close is called below:
+			// the counter never exceeds the number of permits held by open connections
+			n := atomic.AddInt64(&open, 1)
+			for {
+				m := atomic.LoadInt64(&maxOpen)
+				if n <= m || atomic.CompareAndSwapInt64(&maxOpen, m, n) {
+					break
+				}
+			}
+			atomic.AddInt64(&accepted, 1)
+			work <- c
+		}
+	}()
+	root := vfNewRand(uint64(in.Seed))
+	for w := 0; w < in.Workers; w++ {
+		wwg.Add(1)
+		go func(r *vfRand) {
+			defer wwg.Done()
+			for c := range work {
+				switch r.Intn(4) {
+				case 0:
+					runtime.Gosched()
+				case 1:
+					time.Sleep(time.Duration(r.Intn(200)) * time.Microsecond)
+				}
+				if lc, ok := c.(*limitListenerConn); ok {
+					if ic, ok := lc.Conn.(*c17Conn); ok && atomic.LoadInt64(&ic.closes) != 0 {
+						atomic.AddInt64(&dropped, 1)
+					}
+				}
+				atomic.AddInt64(&open, -1)
+				func() {
+					defer func() {
+						if rec := recover(); rec != nil {
+							atomic.AddInt64(&panics, 1)
+						}
+					}()
+					c.Close()
+					if r.Chance(1, 4) {
+						c.Close() // a second Close must not release a second permit
+					}
+				}()
+				atomic.AddInt64(&closedN, 1)
+			}
+		}(root.Fork(w))
+	}
+	T++ // the accept loop takes one permit and waits inside the inner Accept
+	total := int64(0)
+	id := int64(0)
+	for p, capN := range in.Caps {
+		if p > 0 {
+			n := capN
+			if n > snap.Size {
+				n = snap.Size
+			}
+			d := n - ll.sem.VfC17Snapshot().Real
+			ll.SetMaxConnection(uint32(capN))
+			T -= d // quiescent: only the accept loop's permit is out, a shrink to >= 1 fits at once
+		}
+		if !c17LLPoll(func() bool { snap = ll.sem.VfC17Snapshot(); return snap.T() == T && len(snap.Waiters) == 0 }) {
+			obs.Desync = true
+		}
+		atomic.StoreInt64(&maxOpen, atomic.LoadInt64(&open))
+		for i := 0; i < in.PerPhase; i++ {
+			select {
+			case inner.ch <- c17Item{conn: &c17Conn{id: id}}:
+			case <-time.After(time.Duration(atomic.LoadInt64(&c17LLTimeout))):
+				obs.Desync = true
+			}
+			id++
+		}
+		total += int64(in.PerPhase)
+		// quiescent point: everything offered so far has been accepted and closed
+		if !c17LLPoll(func() bool { return atomic.LoadInt64(&closedN) == total }) {
+			obs.Desync = true
+		}
+		obs.Max = append(obs.Max, atomic.LoadInt64(&maxOpen))
+	}
+	ll.Close()
+	close(inner.ch)
+	awg.Wait()
+	close(work)
+	wwg.Wait()
+	snap = ll.sem.VfC17Snapshot()
+	obs.FinalUsed = snap.Cur - (snap.Size - snap.Real) + int64(len(snap.Waiters))
+	obs.Accepted, obs.Closed, obs.Panics, obs.Dropped = accepted, closedN, panics, dropped
+	return
+}
+
 func TestVerifC17LL(t *testing.T) {
 	out := vfOpen(t)
 	defer out.Close()
+	for _, sc := range vfStored("storm") {
+		var in c17StormIn
+		if err := json.Unmarshal(sc.In, &in); err != nil {
+			t.Fatal(err)
+		}
+		out.Emit(vfCase{ID: sc.ID, Src: sc.Src, Grp: "storm", In: in, Obs: c17StormExec(in)})
+	}
 	for _, sc := range vfStored("ll") {
 		var in c17LLIn
 		if err := json.Unmarshal(sc.In, &in); err != nil {
@@ -430,5 +569,15 @@ func TestVerifC17LL(t *testing.T) {
 	for i := 0; i < n; i++ {
 		in := c17LLGen(root.Fork(i), adv)
 		out.Emit(vfCase{ID: fmt.Sprintf("%s-ll-%d", src, i), Src: src, Grp: "ll", In: in, Obs: c17LLExec(in)})
+	}
+	if vfTier() == "thorough" {
+		for i := 0; i < 24; i++ {
+			r := root.Fork(200000 + i)
+			in := c17StormIn{Workers: r.PickInt(2, 4, 8, 16, 32), PerPhase: r.PickInt(200, 500, 1000), Seed: r.Intn(1 << 30)}
+			for p := r.Range(1, 4); p > 0; p-- {
+				in.Caps = append(in.Caps, int64(r.PickInt(1, 2, 3, 5, 8, 16)))
+			}
+			out.Emit(vfCase{ID: fmt.Sprintf("%s-storm-%d", src, i), Src: src, Grp: "storm", In: in, Obs: c17StormExec(in)})
+		}
 	}
 }
